@@ -998,6 +998,8 @@ const (
 	vf41URLtrunc  = "https://mem.test/obj/trunc"   // valid schema, truncated record batch
 	vf41URLloop   = "https://mem.test/obj/loop"    // data batch, then a pointer batch
 	vf41URLabsent = "https://mem.test/obj/missing" // 404
+	vf41URLx32    = "https://mem.test/obj/x32"     // one int32 x batch: castable to the declared int64 input
+	vf41URLxstr   = "https://mem.test/obj/xstr"    // one utf8 x batch: not castable to the declared input
 	vf41URLcut    = "https://mem.test/obj/cut/"    // + n: two-batch stream cut after n bytes
 	vf41URLtail   = "https://mem.test/obj/tail/"   // + n: n bytes of it, then garbage
 )
@@ -1020,6 +1022,11 @@ func (s *vf41Store) preload() {
 	ptr := vf37ZeroRows(vfXSchema, MetaLocation, vf41URLx)
 	defer ptr.Release()
 	s.objs[vf41URLloop] = vfStreamBytes(vfXSchema, b1, ptr)
+	c32, str := vf37InputBatch("c32", 4), vf37InputBatch("str", 4)
+	defer c32.Release()
+	defer str.Release()
+	s.objs[vf41URLx32] = vfStreamBytes(c32.Schema(), c32)
+	s.objs[vf41URLxstr] = vfStreamBytes(str.Schema(), str)
 }
 
 // external kinds: Via names how the request / the inputs travel.
@@ -1043,6 +1050,9 @@ func vf41ExtKinds() []vf37Kind {
 		{Name: "in-ptr-two", Class: "ext-input-2batch", Method: "exch", Stream: 2, X: 6, In: []string{"P" + vf41URL2}, Dispatched: true},
 		{Name: "in-ptr-junk", Class: "ext-input-junk", Method: "exch", Stream: 2, X: 6, In: []string{"P" + vf41URLjunk}, Dispatched: true},
 		{Name: "in-ptr-trunc", Class: "ext-input-trunc", Method: "exch", Stream: 2, X: 6, In: []string{"i", "P" + vf41URLtrunc}, Dispatched: true},
+		// the fetched batch (framework allocator) then goes through the input-schema cast
+		{Name: "in-ptr-castok", Class: "ext-input-castable", Method: "exch", Stream: 2, X: 6, In: []string{"P" + vf41URLx32, "i"}, Dispatched: true},
+		{Name: "in-ptr-castfail", Class: "ext-input-cast-fail", Method: "exch", Stream: 2, X: 6, In: []string{"i", "P" + vf41URLxstr}, Dispatched: true},
 	}
 }
 
